@@ -34,10 +34,10 @@ def rtLine (m : MemFs) (kind : String) (path : Str) (size seed : Nat) : MemFs ×
     let m1 := (m.mkdirAll (keyOfStr dir) 0o755).1
     let w := Util.writeFile m1 path data 0o644
     if w.2 = .ok then verdict w.1 data else (w.1, "rt model-fail")
-  | "writereader" | "writereader-partial" | "writereader-plain" =>   -- (-partial: the reader had been read from before; what is written is what is left in it)
+  | "writereader" | "writereader-partial" | "writereader-plain" | "writereader-eofdata" =>   -- (-partial: the reader had been read from before; what is written is what is left in it)
     let w := Util.writeReader m path data
     if w.2 = .ok then verdict w.1 data else (w.1, "rt model-fail")
-  | "safewrite" | "safewrite-partial" | "safewrite-plain" =>
+  | "safewrite" | "safewrite-partial" | "safewrite-plain" | "safewrite-eofdata" =>   -- (-eofdata: the reader hands its last bytes out together with io.EOF)
     let w := Util.safeWriteReader m path data
     if w.2 = .ok then verdict w.1 data else (w.1, "rt model-fail")
   | "safeexisting" =>
